@@ -13,7 +13,7 @@ import z3
 from pyvc.contract import Case, Contract, LoopSpec, Registry, Shape
 from pyvc.ops import Unsupported, coerce
 from pyvc.source import Source
-from pyvc.types import BOOL, INT, REAL, STR, Atom, Enum, MapT, ObjT, Opt, Record, SeqT, SetT, dd_set
+from pyvc.types import BOOL, DATETIME, INT, REAL, STR, Atom, Enum, MapT, ObjT, Opt, Record, SeqT, SetT, dd_set
 from pyvc.values import NONE, OK, RAISE, ExcVal, Native, Val, boolval, fresh_name, mk_fresh
 
 HERE = os.path.dirname(os.path.abspath(__file__))
@@ -61,11 +61,11 @@ class Types:
     def __init__(self, src: Source):
         self.src = src
         self.Status = enum_from_ast(src, "pynenc.invocation.status", "InvocationStatus")
-        self.Record = Record("InvocationStatusRecord", [("status", self.Status), ("runner_id", Opt(RUNNER)), ("timestamp", REAL)])
+        self.Record = Record("InvocationStatusRecord", [("status", self.Status), ("runner_id", Opt(RUNNER)), ("timestamp", DATETIME)])
         self.Record.pycls = ("pynenc.invocation.status", "InvocationStatusRecord")
         self.Record.defaults = {
             "runner_id": lambda eng, st: NONE,
-            "timestamp": lambda eng, st: eng.now(st),
+            "timestamp": lambda eng, st: Val(eng.now(st).term, DATETIME),
         }
         self.CCType = enum_from_ast(src, "pynenc.conf.config_task", "ConcurrencyControlType")
 
